@@ -3,7 +3,7 @@ CONSTANTS
   Users = {1, 2}
   Events = {0, 1}
   OpKinds = {"call", "serve", "abort", "destroy"}
-  MaxOps = 7
+  MaxOps = 6
   MaxQueue = 3
 INVARIANTS Emit InvType InvEvents
 CHECK_DEADLOCK FALSE
